@@ -398,8 +398,8 @@ def enforce(A: spmatrix,
             # mass matrix (eigen- or initial value problem)
             bout = enforce(b, D=D, diag=0., overwrite=overwrite)
         else:
-            # set rhs to the given value
-            bout = b if overwrite else b.copy()
+            # set rhs to the given value, which might be complex
+            bout = b.astype(np.result_type(b, x), copy=not overwrite)
             bout[D] = x[D]
         return Aout, bout
 
@@ -465,9 +465,12 @@ def penalize(A: spmatrix,
     if b is None:
         return Aout
 
-    bout = b if overwrite else b.copy()
     # Nothing needs doing for mass matrix, but RHS vector needs penalty factor
-    if not isinstance(b, spmatrix):
+    if isinstance(b, spmatrix):
+        bout = b if overwrite else b.copy()
+    else:
+        # the given values might be complex
+        bout = b.astype(np.result_type(b, x), copy=not overwrite)
         bout[D] = x[D] / epsilon
     return Aout, bout
 
